@@ -1097,6 +1097,7 @@ static int mps_fill_in (
 		hit = ILLsymboltab_lookup (&lp->rowtab, lp->refrow, &lp->refrowind);
 		if (hit)
 		{
+			EGLPNUM_TYPENAME_EGlpNumClearVar (weight);
 			return EGLPNUM_TYPENAME_ILLdata_error (lp->error_collector,
 														"REFROW \"%s\" is not a row name.\n", lp->refrow);
 		}
